@@ -73,6 +73,8 @@ class Poly:
         return self + (-o)
 
     def __mul__(self, o):
+        if len(self.t) * len(o.t) > 100000:
+            raise Unsupported('polynomial too large')
         r = {}
         for k1, v1 in self.t.items():
             for k2, v2 in o.t.items():
@@ -181,6 +183,28 @@ def reduce_sqrt(p, pure_args):
     return p
 
 
+def clear_inverses(p, pure_args):
+    """multiply p by the arguments of its inv(..) symbols until none is left (p == 0 is preserved where they are
+    non-zero)."""
+    for _ in range(12):
+        invs = [s for s in p.symbols() if s in pure_args and pure_args[s][0] == 'inv']
+        if not invs:
+            return p
+        s = sorted(invs)[0]
+        P = pure_args[s][1][0]
+        deg = max(dict(k).get(s, 0) for k in p.t)
+        out = Poly()
+        for k, v in p.t.items():
+            d = dict(k)
+            e = d.pop(s, 0)
+            term = Poly({tuple(sorted(d.items())): v})
+            for _i in range(deg - e):
+                term = term * P
+            out = out + term
+        p = out
+    raise Unsupported('inverse symbols not cleared')
+
+
 def entails_zero(target, eqs, periods=(), modulus=None):
     """is target == 0 (or an integer combination of modulus * period symbols) given the linear equalities eqs?"""
     pivots = []
@@ -257,7 +281,7 @@ class SymEval:
         self.preset_outs = {}         # name of a variable handed to an uninterpreted call by address -> constant
 
     # ------------------------------------------------------------------ driver
-    def explore(self, fn, preset=None, thiskey=('this',)):
+    def explore(self, fn, preset=None, thiskey=('this',), inits_only=False):
         """all paths of fn; preset: {key: Poly} for inputs that are not to be plain symbols."""
         paths = []
         self.decisions = []
@@ -277,8 +301,14 @@ class SymEval:
             try:
                 for it in fn.d.get('inits', []):
                     if it.get('kind') == 'member' and it.get('init', -1) >= 0:
-                        self.env[thiskey + (it['m'],)] = self.ev(fr, it['init'])
-                self.ex(fr, fn.d['body'])
+                        try:
+                            self.env[thiskey + (it['m'],)] = self.ev(fr, it['init'])
+                        except Unsupported:
+                            if not inits_only:
+                                raise
+                            self.env[thiskey + (it['m'],)] = Poly.sym(self.newsym('uninterpreted'))
+                if not inits_only:
+                    self.ex(fr, fn.d['body'])
             except _Return as r:
                 ret = r.val
             except _Throw:
